@@ -597,6 +597,10 @@ class StmtMixin:
             st_b = self.bind_target(st_in, s.target, el)
             st_b = st_b.fork()
             # the ghost loop variables of an enclosing loop stay visible to inner invariants as outer_i / outer_done ...
+            # (this loop's own invariants keep seeing the *enclosing* loop's values under those names: the body state
+            #  carries this loop's ghosts for the loops nested inside it)
+            enclosing = {k_: v_ for k_, v_ in st_b.frame.locals.items() if k_.startswith("outer_")}
+            nxt_ghost.update(enclosing)
             st_b.frame.locals.update({("outer" + k_): v_ for k_, v_ in ghost.items()})
             for o in self.exec_block(s.body, st_b):
                 if o.kind in ("ok", "cnt"):
